@@ -689,6 +689,10 @@ bool XMLReader::getName(XMLBuffer& toFill, const bool token)
                     return false;
                 // reset the start buffer to the new location of the cursor
                 charIndex_start = fCharIndex;
+                // the refresh may have added nothing (a high surrogate that
+                // ends the entity): there is no second character to look at
+                if (fCharIndex+1 >= fCharsAvail)
+                    return false;
             }
             if ((fCharBuf[fCharIndex+1] < 0xDC00) || (fCharBuf[fCharIndex+1] > 0xDFFF))
                 return false;
@@ -730,6 +734,11 @@ bool XMLReader::getName(XMLBuffer& toFill, const bool token)
                         break;
 
                     charIndex_start = fCharIndex;
+
+                    // the refresh may have added nothing (a high surrogate
+                    // that ends the entity): no second character to look at
+                    if (fCharIndex+1 >= fCharsAvail)
+                        break;
                 }
                 if ( (fCharBuf[fCharIndex+1] < 0xDC00) ||
                         (fCharBuf[fCharIndex+1] > 0xDFFF)  )
@@ -781,6 +790,10 @@ bool XMLReader::getNCName(XMLBuffer& toFill)
                 return false;
             // reset the start buffer to the new location of the cursor
             charIndex_start = fCharIndex;
+            // the refresh may have added nothing (a high surrogate that
+            // ends the entity): there is no second character to look at
+            if (fCharIndex+1 >= fCharsAvail)
+                return false;
         }
         if ((fCharBuf[fCharIndex+1] < 0xDC00) || (fCharBuf[fCharIndex+1] > 0xDFFF))
             return false;
@@ -832,6 +845,11 @@ bool XMLReader::getNCName(XMLBuffer& toFill)
                         break;
 
                     charIndex_start = fCharIndex;
+
+                    // the refresh may have added nothing (a high surrogate
+                    // that ends the entity): no second character to look at
+                    if (fCharIndex+1 >= fCharsAvail)
+                        break;
                 }
                 if ( (fCharBuf[fCharIndex+1] < 0xDC00) ||
                     (fCharBuf[fCharIndex+1] > 0xDFFF)  )
